@@ -50,6 +50,7 @@ inductive Act
   | queue (what : String)                                -- `loop_->queueInLoop(functor running what)`
   | run (what : String)                                  -- `loop_->runInLoop(..)`
   | timer (delay : String) (what : String)               -- `loop_->runAfter(delay, ..)`
+  | cancelTimer (member : String)                        -- `loop_->cancel(member)`: the timer whose id `member` holds
   | call (fn : String) (args : String)                   -- direct call of another member function
   | sys (op : SysOp) (args : String)
   | on (obj : String) (method : String) (args : String)  -- `obj->method(args)`: `connector_`, `connection_`, `conn`
@@ -140,6 +141,7 @@ is there) -/
 def startCycleInLoop : List Skel :=
   [ .ite "cycleClearsState" [.act (.setState .kDisconnected)] [],
     .act (.assign "retryDelayMs_" "kInitRetryDelayMs"),
+    .act (.call "cancelRetryTimer" ""),
     .act (.call "startInLoop" "") ]
 
 /-- `Client.startInLoop`: `if c.asserts ∧ ¬ startAssert c.cstate then <abort "state_ == kDisconnected"> else if
@@ -158,7 +160,8 @@ def stop : List Skel :=
 channel unregistered (`disableAll`, `remove`), its socket `k` taken (`channel_->fd()`), the channel object destroyed,
 then `retry k` -/
 def stopInLoop : List Skel :=
-  [ .ite "stopActs"
+  [ .ite "stopCancelsRetryTimer" [.act (.call "cancelRetryTimer" "")] [],
+    .ite "stopActs"
       [ .act (.setState .kDisconnected),
         .act (.chan .disableAll ""),
         .act (.chan .remove ""),
@@ -255,8 +258,16 @@ def retry : List Skel :=
     .act (.setState .kDisconnected),
     .ite "retrySchedules"
       [ .act (.timer "retryDelayMs_ / 1000" "Connector::startInLoop"),
+        .act (.assign "retryTimer_" "loop_.runAfter(retryDelayMs_ / 1000, bind Connector::startInLoop)"),
         .act (.assign "retryDelayMs_" "min(retryDelayMs_ * 2, kMaxRetryDelayMs)") ]
       [] ]
+
+/-- `Client.cancelRetry`: the timer whose id `retry` stored last (`retryTimerStored`) is removed from the timer queue
+- `timers.filter (¬ retry)`: in every guarded history at most one back-off timer is pending (`Mid.a8`), so the one
+`retryTimer_` names is all of them - and the id is forgotten -/
+def cancelRetryTimer : List Skel :=
+  [ .act (.cancelTimer "retryTimer_"),
+    .act (.assign "retryTimer_" "muduo::net::TimerId()") ]
 
 /-- `Client.handleClose`, `| .detached => enqueue c1 (.connectDestroyed k)` -/
 def detailRemoveConnection : List Skel :=
